@@ -415,6 +415,11 @@ func repoGarbageCollect(repo Repo, conf config.Config, index types.Index, locked
 	manifests := make([]types.Descriptor, 0, len(index.Manifests))
 	subjects := map[digest.Digest]types.Descriptor{}
 	inIndex := map[digest.Digest]bool{}
+	// content that could not be examined is not garbage: any error other than the content being absent aborts the GC,
+	// otherwise a failing open or stat would get a tagged image or a recent upload deleted
+	failed := func(d digest.Digest, err error) bool {
+		return err != nil && !errors.Is(err, types.ErrNotFound) && d.Validate() == nil
+	}
 	// build a list of manifests and subjects to scan
 	for _, d := range index.Manifests {
 		inIndex[d.Digest] = true
@@ -427,6 +432,8 @@ func repoGarbageCollect(repo Repo, conf config.Config, index types.Index, locked
 		if !keep && conf.Storage.GC.GracePeriod >= 0 {
 			if meta, err := repo.blobMeta(d.Digest, locked); err == nil && meta.mod.After(cutoff) {
 				keep = true
+			} else if failed(d.Digest, err) {
+				return index, false, fmt.Errorf("failed to check %s in GC: %w", d.Digest, err)
 			}
 		}
 		// referrers responses
@@ -434,6 +441,9 @@ func repoGarbageCollect(repo Repo, conf config.Config, index types.Index, locked
 			dig, _ := digest.Parse(d.Annotations[types.AnnotReferrerSubject])
 			subjExists := (dig != "")
 			if _, err := repo.blobMeta(dig, locked); subjExists && err != nil {
+				if failed(dig, err) {
+					return index, false, fmt.Errorf("failed to check subject %s in GC: %w", dig, err)
+				}
 				subjExists = false
 			}
 			if *conf.Storage.GC.ReferrersWithSubj && subjExists {
@@ -448,6 +458,8 @@ func repoGarbageCollect(repo Repo, conf config.Config, index types.Index, locked
 				if meta, err := repo.blobMeta(d.Digest, locked); err == nil && conf.Storage.GC.GracePeriod >= 0 && meta.mod.After(cutoff) {
 					// always keep new entries
 					keep = true
+				} else if failed(d.Digest, err) {
+					return index, false, fmt.Errorf("failed to check %s in GC: %w", d.Digest, err)
 				} else {
 					// else preserve only if subject remains
 					subjects[dig] = d.Copy()
@@ -473,6 +485,9 @@ func repoGarbageCollect(repo Repo, conf config.Config, index types.Index, locked
 		}
 		br, err := repo.blobGet(d.Digest, locked)
 		if err != nil {
+			if failed(d.Digest, err) {
+				return index, false, fmt.Errorf("failed to read %s in GC: %w", d.Digest, err)
+			}
 			continue
 		}
 		seen[d.Digest] = true
@@ -526,6 +541,10 @@ func repoGarbageCollect(repo Repo, conf config.Config, index types.Index, locked
 		bInfo, errMeta := repo.blobMeta(d, locked)
 		if errMeta == nil && conf.Storage.GC.GracePeriod >= 0 && bInfo.mod.After(cutoff) && !inIndex[d] {
 			// keep recently uploaded blobs (manifests handled above)
+			continue
+		}
+		if failed(d, errMeta) {
+			// the age is unknown, leave it for a later GC
 			continue
 		}
 		// prune from index, check existence directly since some index entries may not be accessible
